@@ -122,4 +122,22 @@ Section Lex.
         * exact (IH (n :: rest) c clex S' b Hv' H).
       + exact (IH (n :: rest) c clex S' b Hv' H).
   Qed.
+
+  Lemma nav_valid : forall lex cs, nav root lex = Some cs ->
+    lex = [] \/ exists d dl, located d dl /\ lex = dl ++ [c_name d].
+  Proof.
+    intros lex cs N. destruct lex as [|y dl0] using rev_ind; [left; reflexivity|]. right. clear IHdl0.
+    assert (exists cs0 d0, nav root dl0 = Some cs0 /\ od_get c_name Pos.eqb y cs0 = Some d0) as [cs0 [d0 [N0 G0]]].
+    { clear -N. revert N. generalize root as r. induction dl0 as [|z dl0 IHd]; intros r N; cbn [nav app] in *.
+      - destruct (od_get c_name Pos.eqb y r) as [d0|] eqn:G; [|discriminate N]. exists r, d0. split; [reflexivity | exact G].
+      - destruct (od_get c_name Pos.eqb z r) as [cz|]; [|discriminate N]. exact (IHd _ N). }
+    exists d0, dl0. split.
+    - exists cs0. split; [exact N0|]. rewrite (od_get_key c_name y _ d0 G0). exact G0.
+    - rewrite (od_get_key c_name y _ d0 G0). reflexivity.
+  Qed.
+
+  (* lex_consistent for the scope of any located class *)
+  Corollary lookup_located d dl ref c clex S' b :
+    located d dl -> lookup (LS dl) ref = Some (c, clex, S', b) -> located c clex /\ S' = LS clex /\ b = false.
+  Proof. intros [cs [N _]]. apply lex_consistent. exact (nav_valid dl cs N). Qed.
 End Lex.
